@@ -5,7 +5,7 @@ from pyvc.api import harness
 from pyvc import spec as SP
 
 META = {
-    "explanation": "upper_conc_bounds (element totals, least ratio, charge skipped, inf without elements; no non-negative state with the same totals exceeds it), identify_equilibria, substance_participation, per_reaction_effect_on_substance, categorize_substances, subset, +, +=, ==, the per-substance conversions and the constructor's duplicate/key checks are proved for every coefficient/composition/concentration at fixed key layouts; split() and the key-structure of all queries are covered by the exhaustive bounded enumeration (all systems of <=4 reactions over <=5 substances in every order); split, sequences of +/subset/split, concatenate, + and += with a list of reactions and decompose_yields (well-posed inputs) additionally on systems written out by hand (data)",
+    "explanation": "upper_conc_bounds (element totals, least ratio, charge skipped, inf without elements; no non-negative state with the same totals exceeds it), identify_equilibria, substance_participation, per_reaction_effect_on_substance, categorize_substances, subset, +, +=, ==, the per-substance conversions and the constructor's duplicate/key checks are proved for every coefficient/composition/concentration at fixed key layouts; split() and the key-structure of all queries are covered by the exhaustive bounded enumeration (all systems of <=4 reactions over <=5 substances in every order); a species written both active and inactive on one side of a reaction counts with the sum in the categories, the stoichiometry tables and the forward/backward pairs; split, sequences of +/subset/split, subset on systems that hold the same step twice (the predicate alone decides), concatenate, + and += with a list of reactions and decompose_yields (well-posed inputs, requested yields of exactly zero included) additionally on systems written out by hand (data)",
     "trusted_base": ["numpy object arrays store/return elements and apply operators elementwise (5.2)"],
     "not_decided": ["split() for arbitrary graphs as a proof (bounded: exhaustive small systems + random larger ones; data: written systems)", "decompose_yields for arbitrary input (lstsq; data: well-posed written cases only, rank-deficient input is not under contract)"],
     "assumptions": ["key layouts fixed per harness (shape-bounded)",
@@ -121,6 +121,35 @@ def _(v):
     _equilibria_obligations(v, [(["A"], ["D"], ["B"], ["B"]), (["D"], ["A"], ["B"], ["B"]), (["D"], ["A"], [], [])])
 
 
+def _reverse_totals(a, b, names=NAMES):
+    """what holds for a forward/backward pair under every reading of the definition: per species, everything reaction a writes on its reactant
+    side (active + inactive) is what b writes on its product side, and the other way round"""
+    return SP.conj([SP.conj([all_reac(a, k) == all_prod(b, k), all_prod(a, k) == all_reac(b, k)]) for k in names])
+
+
+@harness("C15", "identify_equilibria_species_active_and_inactive_on_one_side", functions=[RS + ":ReactionSystem.identify_equilibria", "chempy.chemistry:Reaction.all_reac_stoich", "chempy.chemistry:Reaction.all_prod_stoich"],
+         kind="shape-bounded", samples=60)
+def _(v):
+    """'forward/backward pairs ... contain exactly the reactions their definitions say' where one species is written twice on the same side, once
+    active and once inactive (chempy's way of writing '2 A + B -> C, first order in A': A + (A) + B -> C): against C -> A + B and against its
+    written reverse C -> A + (A) + B.  Stated so that it holds whether 'backward reaction' is read part by part (as in identify_equilibria above)
+    or by the totals per side: a listed pair has, species by species, the same TOTAL (active + inactive) on swapped sides -- a backward step that
+    returns fewer A than the forward step takes is no pair --, and the written reverse is listed unless an earlier reaction already balances
+    the totals."""
+    from chempy.reactionsystem import ReactionSystem
+    rxns, ds = mk_rxns(v, [(["A", "B"], ["C"], ["A"], []), (["C"], ["A", "B"], [], []), (["C"], ["A", "B"], [], ["A"])])
+    rsys = ReactionSystem(rxns, plain_substances(), checks=())
+    eq = v.call(rsys.identify_equilibria)
+    n = len(rxns)
+    for i in range(n):
+        for j in range(i + 1, n):
+            v.prove("pair_%d_%d_listed_only_if_totals_per_side_are_swapped" % (i, j), SP.implies((i, j) in eq, _reverse_totals(ds[i], ds[j])))
+            v.prove("pair_%d_%d_listed_if_written_reverse_and_no_earlier_partner" % (i, j),
+                    SP.implies(SP.conj([_reverse_parts(ds[i], ds[j])] + [SP.neg(_reverse_totals(ds[i], ds[m])) for m in range(i + 1, j)]), (i, j) in eq))
+    v.prove("only_ordered_pairs", all(a < b_ for a, b_ in eq))
+    v.prove("each_reaction_opens_at_most_one_pair", len(set(a for a, _ in eq)) == len(eq))
+
+
 @harness("C15", "participation_and_effect", functions=[RS + ":ReactionSystem.substance_participation", RS + ":ReactionSystem.per_reaction_effect_on_substance", "chempy.chemistry:Reaction.keys"],
          kind="shape-bounded", samples=30)
 def _(v):
@@ -135,12 +164,9 @@ def _(v):
         v.prove("effect_%s.only_nonzero" % k, SP.conj([SP.implies(net(d, k) == 0, i not in eff) for i, d in enumerate(ds)]))
 
 
-@harness("C15", "categorize_substances", functions=[RS + ":ReactionSystem.categorize_substances", RS + ":ReactionSystem._stoichs"], kind="shape-bounded", samples=60)
-def _(v):
+def _categorize_obligations(v, names, lay):
     from chempy.reactionsystem import ReactionSystem
     from chempy.chemistry import Substance
-    names = NAMES + ["E"]
-    lay = [(["A", "B"], ["C"], [], []), (["A"], ["D"], ["B"], ["B"]), (["C"], ["D"], [], [])]
     rxns, ds = mk_rxns(v, lay)
     rsys = ReactionSystem(rxns, OrderedDict((n, Substance(n)) for n in names), checks=())
     cat = v.call(rsys.categorize_substances, checks=())
@@ -155,6 +181,30 @@ def _(v):
         v.prove(k + ".nonparticipating_iff_absent", SP.iff(k in cat["nonparticipating"], SP.conj([SP.neg(in_r), SP.neg(in_p), SP.neg(appears)])))
     # the four categories of the statement are there (a further category, e.g. for species both produced and consumed, is not excluded by it)
     v.prove("keys", {"accumulated", "depleted", "unaffected", "nonparticipating"} <= set(cat))
+    return rsys, ds
+
+
+@harness("C15", "categorize_substances", functions=[RS + ":ReactionSystem.categorize_substances", RS + ":ReactionSystem._stoichs"], kind="shape-bounded", samples=60)
+def _(v):
+    _categorize_obligations(v, NAMES + ["E"], [(["A", "B"], ["C"], [], []), (["A"], ["D"], ["B"], ["B"]), (["C"], ["D"], [], [])])
+
+
+@harness("C15", "categorize_substances_species_active_and_inactive_on_one_side", functions=[RS + ":ReactionSystem.categorize_substances", RS + ":ReactionSystem._stoichs", RS + ":ReactionSystem.all_reac_stoichs",
+                                                                                           RS + ":ReactionSystem.all_prod_stoichs", "chempy.chemistry:Reaction.all_reac_stoich", "chempy.chemistry:Reaction.all_prod_stoich"],
+         kind="shape-bounded", samples=60)
+def _(v):
+    """'only ever net-produced, only net-consumed, present with zero net effect': what a reaction does to a species is everything it writes for it
+    on the product side minus everything on the reactant side, active AND inactive added up, also when the species stands twice on one side
+    (A + Cat + (Cat) -> B + Cat: the catalyst is unaffected only when the coefficients cancel with both counted; B -> C + (C) against C -> B).
+    The per-reaction tables the categories are read from (all_reac_stoichs / all_prod_stoichs, rows = reactions, columns = substances in
+    substance order) hold these totals."""
+    names = NAMES + ["E"]
+    rsys, ds = _categorize_obligations(v, names, [(["A", "D"], ["B", "D"], ["D"], []), (["B"], ["C"], [], ["C"]), (["C"], ["B"], [], [])])
+    tr, tp = v.call(rsys.all_reac_stoichs), v.call(rsys.all_prod_stoichs)
+    v.prove("tables_have_one_row_per_reaction_one_column_per_substance", len(tr) == len(ds) and len(tp) == len(ds) and all(len(row) == len(names) for row in list(tr) + list(tp)))
+    for i, d in enumerate(ds):
+        v.prove("reactant_side_of_reaction_%d_is_active_plus_inactive" % i, SP.conj([v.eq(tr[i][j], all_reac(d, k)) for j, k in enumerate(names)]))
+        v.prove("product_side_of_reaction_%d_is_active_plus_inactive" % i, SP.conj([v.eq(tp[i][j], all_prod(d, k)) for j, k in enumerate(names)]))
 
 
 @harness("C15", "subset_add_eq", functions=[RS + ":ReactionSystem.subset", RS + ":ReactionSystem.__add__", RS + ":ReactionSystem.__iadd__", RS + ":ReactionSystem.__eq__"], kind="shape-bounded", samples=30)
@@ -183,6 +233,11 @@ def _(v):
         v.prove("r%d_in_exactly_one" % i, has(yes.rxns, i) != has(no.rxns, i) and [x.name for x in yes.rxns + no.rxns].count(tags[i]) == 1)
     v.prove("reactions_unchanged", SP.conj([same_content(x, tags.index(x.name)) for x in yes.rxns + no.rxns if x.name in tags]) and all(x.name in tags for x in yes.rxns + no.rxns))
     v.prove("order_kept", [x.name for x in yes.rxns] == [t for t in tags if t in [x.name for x in yes.rxns]] and [x.name for x in no.rxns] == [t for t in tags if t in [x.name for x in no.rxns]])
+    # the predicate alone decides: one that reads only the tag takes reaction 1 and leaves 0, 2, 3 -- also for the coefficients at which reaction 3
+    # (same layout as 1) has the same four parts as reaction 1 and the two differ in nothing but the tag
+    yes_t, no_t = v.call(rsys.subset, lambda r: r.name == "n1")
+    v.prove("tag_predicate.partition_whatever_the_coefficients", [x.name for x in yes_t.rxns] == ["n1"] and [x.name for x in no_t.rxns] == ["n0", "n2", "n3"])
+    v.prove("tag_predicate.reactions_unchanged", SP.conj([same_content(x, tags.index(x.name)) for x in yes_t.rxns + no_t.rxns if x.name in tags]))
     v.prove("substances_restricted", all(any(k in r.keys() for r in yes.rxns) for k in yes.substances) and
             all((k in yes.substances) for r in yes.rxns for k in r.keys()))
     s = v.call(yes.__add__, no)
@@ -573,11 +628,95 @@ def _(v):
     v.prove("components_of_the_halves", got == ([((5.0,), ("C", "D", "G"))], [((1.0, 3.0), ("A", "B", "E")), ((2.0,), ("C", "D")), ((4.0,), ("F", "G"))]), detail=repr(got))
 
 
+@harness("C15", "subset_decided_by_the_predicate_alone", functions=["chempy.reactionsystem:ReactionSystem.subset", "chempy.reactionsystem:ReactionSystem.__add__", "chempy.reactionsystem:ReactionSystem.concatenate"], kind="data")
+def _(v):
+    """'predicate subsets and sums of systems contain exactly the reactions their definitions say': subset(pred) hands every reaction of the system
+    to exactly one of the two results -- the first gets those with pred(r) true, the second those with pred(r) false, each in the system's order
+    -- and the predicate is the ONLY thing that decides, whatever the reactions look like.  In particular for a system that holds the same
+    elementary step twice (same four parts and constant, told apart by name / ref / data only; + and += build such systems, they do not re-run
+    the duplicate check) or the same stoichiometry with two constants: a predicate may separate the twins, and none of them may get lost or be
+    counted twice.  The substances of each half are the species of its reactions (compared as sets).  Reactions are identified by their
+    names."""
+    from chempy.chemistry import Reaction, Substance
+    from chempy.reactionsystem import ReactionSystem
+    R = lambda reac, prod, k, name, ref=None, data=None, ir=None: Reaction(reac, prod, k, inact_reac=ir, name=name, ref=ref, data=data, checks=())
+    # two models that share the step A -> B (k = 3): m1 = {a1: A -> B, b1: B -> C}, m2 = {a2: A -> B, c2: C -> D, a3: A -> B with k = 4}; E unused
+    m1 = lambda: ReactionSystem([R({"A": 1}, {"B": 1}, 3.0, "a1", "model 1", {"T": 298}), R({"B": 1}, {"C": 1}, 5.0, "b1", "model 1")], [Substance(k) for k in "ABC"], checks=())
+    m2 = lambda: ReactionSystem([R({"A": 1}, {"B": 1}, 3.0, "a2", "model 2", {"T": 310}), R({"C": 1}, {"D": 1}, 7.0, "c2", "model 2"), R({"A": 1}, {"B": 1}, 4.0, "a3", "model 2")],
+                                [Substance(k) for k in "EABCD"], checks=())
+    species = {"a1": "AB", "b1": "BC", "a2": "AB", "c2": "CD", "a3": "AB"}      # read off the reactions above
+
+    def halves(rsys, pred):
+        try:
+            before = [r.name for r in rsys.rxns], list(rsys.substances)
+            yes, no = rsys.subset(pred)
+            if ([r.name for r in rsys.rxns], list(rsys.substances)) != before:
+                return "the system itself was changed"
+            return [([r.name for r in part.rxns], "".join(sorted(part.substances))) for part in (yes, no)]
+        except Exception as ex:
+            return repr(ex)
+
+    def want(order, chosen):
+        return [(names, "".join(sorted(set("".join(species[n] for n in names))))) for names in ([n for n in order if n in chosen], [n for n in order if n not in chosen])]
+    try:
+        total = m1() + m2()
+        order, subst_order = [r.name for r in total.rxns], "".join(total.substances)
+    except Exception as ex:
+        total, order, subst_order = None, repr(ex), ""
+    v.prove("sum_of_two_models_keeps_the_shared_step_twice", order == ["a1", "b1", "a2", "c2", "a3"] and sorted(subst_order) == list("ABCDE") and subst_order[:3] == "ABC", detail="%r %r" % (order, subst_order))
+    if total is not None and isinstance(order, list):
+        preds = [("name is a1 (the twin a2 stays behind)", lambda r: r.name == "a1", {"a1"}),
+                 ("name is a2 (the twin a1 stays behind)", lambda r: r.name == "a2", {"a2"}),
+                 ("from model 1", lambda r: r.ref == "model 1", {"a1", "b1"}),
+                 ("from model 2", lambda r: r.ref == "model 2", {"a2", "c2", "a3"}),
+                 ("measured at 310 K", lambda r: (r.data or {}).get("T") == 310, {"a2"}),
+                 ("constant 3 (both twins, not the third A -> B)", lambda r: r.param == 3.0, {"a1", "a2"}),
+                 ("constant 4 (same stoichiometry as the twins)", lambda r: r.param == 4.0, {"a3"}),
+                 ("uses C", lambda r: "C" in r.keys(), {"b1", "c2"}),
+                 ("every reaction", lambda r: True, set(order)),
+                 ("no reaction", lambda r: False, set())]
+        bad = []
+        for what, pred, chosen in preds:
+            got = halves(total, pred)
+            if got != want(order, chosen):
+                bad.append((what, got))
+        v.prove("every_reaction_in_exactly_one_half_by_the_predicate", not bad, detail="predicate, (reactions, substances) of the two halves: %r" % bad[:2])
+        # the halves put together again are the system's reactions (as a multiset: nothing lost, nothing doubled), in either order of the sum
+        bad = []
+        for what, pred, chosen in preds[:5]:
+            try:
+                yes, no = total.subset(pred)
+                got = sorted(r.name for r in (yes + no).rxns), sorted(r.name for r in (no + yes).rxns)
+            except Exception as ex:
+                got = repr(ex)
+            if got != (sorted(order),) * 2:
+                bad.append((what, got))
+        v.prove("halves_added_again_have_every_reaction_once", not bad, detail=repr(bad[:2]))
+    # a system that lists the very same reaction object twice (rs += rs.rxns[:1]) and a copy of it under another name
+    try:
+        base = m1()
+        first = base.rxns[0]
+        thrice = ReactionSystem([first, base.rxns[1], first, R({"A": 1}, {"B": 1}, 3.0, "again")], [Substance(k) for k in "ABC"], checks=())
+        got = halves(thrice, lambda r: r.name == "again"), halves(thrice, lambda r: r.name == "b1")
+    except Exception as ex:
+        got = repr(ex)
+    v.prove("same_reaction_listed_twice_stays_twice", got == ([(["again"], "AB"), (["a1", "b1", "a1"], "ABC")], [(["b1"], "BC"), (["a1", "a1", "again"], "AB")]), detail=repr(got))
+    # concatenate (which takes the sum apart with a predicate): the sum of the two models has each stoichiometry once, the first of each; the two
+    # later A -> B (a2 with the same constant, a3 with another) are set aside -- nothing is in both results, nothing in neither
+    try:
+        tot, dup = ReactionSystem.concatenate([m1(), m2()])
+        got = [r.name for r in tot.rxns], [r.name for r in dup.rxns]
+    except Exception as ex:
+        got = repr(ex)
+    v.prove("concatenate_of_the_two_models", got == (["a1", "b1", "c2"], ["a2", "a3"]), detail=repr(got))
+
+
 @harness("C15", "decompose_yields_well_posed", functions=["chempy.util.stoich:decompose_yields"], kind="data")
 def _(v):
     """decompose_yields (anchor of C15; only well-posed input is under contract, see META): the returned k reproduces every yield,
-    sum_j k_j * net_j[key] == y[key], for a square and for an over-determined consistent case (k worked out by hand); yields that no k
-    reproduces (independent reactions, more keys than reactions, off by 0.5) and a yield key that is in no reaction are refused"""
+    sum_j k_j * net_j[key] == y[key], for a square and for an over-determined consistent case (k worked out by hand), also when some of the requested yields are exactly zero
+    (a species that must NOT be formed constrains k like any other); yields that no k reproduces (independent reactions, more keys than reactions,
+    off by 0.5, or a zero yield the other yields contradict) and a yield key that is in no reaction are refused"""
     from chempy.chemistry import Reaction
     from chempy.util.stoich import decompose_yields
     # X -> 2 P + Q and X -> P + 3 Q with k = (0.5, 2): P = 1 + 2 = 3, Q = 0.5 + 6 = 6.5, X = -2.5 (not symmetric: the transposed matrix gives other numbers)
@@ -597,8 +736,29 @@ def _(v):
         except Exception as ex:
             ok, det = False, repr(ex)
         v.prove("reproduces_the_yields." + name, ok, detail=det)
+    # a requested yield of exactly zero is a constraint like any other ('reproduces EVERY yield'): W -> A + B and W -> A + C with 2 A and no B
+    # leaves k = (0, 2) (B = k1 = 0, A = k1 + k2 = 2); zero written as float or int, first or last key, alone with other zeros (k = 0), and
+    # in the docstring's system: 1 H2, no O, 1 H2O2 is channel b alone, k = (0, 1), H2O = -2
+    ch1, ch2 = Reaction({"W": 1}, {"A": 1, "B": 1}), Reaction({"W": 1}, {"A": 1, "C": 1})
+    net.update({id(ch1): {"W": -1, "A": 1, "B": 1}, id(ch2): {"W": -1, "A": 1, "C": 1}})
+    zero_cases = [("zero_float_last", OrderedDict([("A", 2.0), ("B", 0.0)]), [ch1, ch2], [0.0, 2.0]),
+                  ("zero_int_first", OrderedDict([("B", 0), ("A", 2)]), [ch1, ch2], [0.0, 2.0]),
+                  ("zero_for_the_other_channel", OrderedDict([("A", 1.5), ("C", 0.0)]), [ch1, ch2], [1.5, 0.0]),
+                  ("zero_overdetermined", OrderedDict([("A", 2.0), ("B", 0.0), ("C", 2.0), ("W", -2.0)]), [ch1, ch2], [0.0, 2.0]),
+                  ("all_zero", OrderedDict([("A", 0.0), ("B", 0.0)]), [ch1, ch2], [0.0, 0.0]),
+                  ("docstring_system_without_atomic_oxygen", OrderedDict([("O", 0), ("H2", 1), ("H2O2", 1), ("H2O", -2)]), [h2a, h2b], [0.0, 1.0])]
+    for name, y, rxns, k_hand in zero_cases:
+        try:
+            k = [float(x) for x in decompose_yields(y, rxns)]
+            resid = max(abs(sum(kj * net[id(r)].get(key, 0) for kj, r in zip(k, rxns)) - val) for key, val in y.items())
+            ok, det = len(k) == len(rxns) and resid <= 1e-6 and all(abs(a - b) <= 1e-6 for a, b in zip(k, k_hand)), "k = %r, largest residual %r" % (k, resid)
+        except Exception as ex:
+            ok, det = False, repr(ex)
+        v.prove("reproduces_the_yields_a_zero_yield_included." + name, ok, detail=det)
     took = []
-    for name, y, rxns in (("X off by 0.5", OrderedDict([("P", 3.0), ("Q", 6.5), ("X", -2.0)]), [r1, r2]),
+    for name, y, rxns in (("3 H2 with no O and 1 H2O2 (k1 + k2 = 3, k1 = 0, k2 = 1)", OrderedDict([("H2", 3.0), ("O", 0.0), ("H2O2", 1.0)]), [h2a, h2b]),
+                          ("2 A with no B and 1 C (k1 + k2 = 2, k1 = 0, k2 = 1)", OrderedDict([("A", 2.0), ("B", 0.0), ("C", 1.0)]), [ch1, ch2]),
+                          ("X off by 0.5", OrderedDict([("P", 3.0), ("Q", 6.5), ("X", -2.0)]), [r1, r2]),
                           ("H2O2 off by 0.5", OrderedDict([("H2", 3), ("O", 2), ("H2O2", 1.5)]), [h2a, h2b]),
                           ("a key in no reaction", OrderedDict([("H2", 3), ("OH", 1)]), [h2a, h2b])):
         try:
